@@ -6,7 +6,7 @@
 (* harness dumps these trees as YAML; it does not unparse patterns itself  *)
 (* (harness/render.py keeps an independent unparser only as a cross-check). *)
 (***************************************************************************)
-EXTENDS JasmSyntax, Json, IOUtils
+EXTENDS JasmSyntax, JasmCompile, Json, IOUtils
 In == JsonDeserialize(IOEnv.JASM_IN)
 Sp(t, u) == [times |-> t, upper |-> u, ints |-> FALSE]
 ASSUME JsonSerialize(IOEnv.JASM_OUT,
@@ -15,7 +15,12 @@ ASSUME JsonSerialize(IOEnv.JASM_OUT,
                         sib   |-> Unparse(In.patterns[n], Sp("sib", FALSE)),
                         upper |-> Unparse(In.patterns[n], Sp("body", TRUE)),
                         ints  |-> Unparse(In.patterns[n], [times |-> "body", upper |-> FALSE, ints |-> TRUE]),
-                        back  |-> Parse(Unparse(In.patterns[n], Sp("body", FALSE))) = In.patterns[n]]]])
+                        back  |-> Parse(Unparse(In.patterns[n], Sp("body", FALSE))) = In.patterns[n],
+                        \* the regex text the compile-scheme model (JasmCompile) predicts, per flag setting
+                        rx    |-> [ff |-> RText(Compile(In.patterns[n], Cx(<<>>, FALSE, FALSE))),
+                                   ft |-> RText(Compile(In.patterns[n], Cx(<<>>, FALSE, TRUE))),
+                                   tf |-> RText(Compile(In.patterns[n], Cx(<<>>, TRUE, FALSE))),
+                                   tt |-> RText(Compile(In.patterns[n], Cx(<<>>, TRUE, TRUE)))]]]])
 VARIABLE x
 Init == x = 0
 Next == x' = x
